@@ -570,6 +570,12 @@ func (t *tr) callMethod(c *ast.CallExpr, xs string, v *aval, m string, args []*a
 		if m == "Read" {
 			return t.atom(aBlockRead, pos, note), nil
 		}
+		if m == "SetSize" {
+			// a call that may wait for the other side (an in-process application repainting
+			// synchronously on a size change feeds the terminal and waits until that is read):
+			// like a blocking read it must not happen with the terminal lock held
+			return t.atom(aBlockRead, pos, note+" (backend call that may wait for the application)"), nil
+		}
 		if fi := t.p.funcs[v.typ+"."+m]; fi != nil && m != "Write" && m != "SetSize" {
 			return t.inline(fi, v, args, c)
 		}
